@@ -43,7 +43,7 @@ def mk(cid, attrs, serial=None, iuid=None, suid=None, profile="none", blanks=Tru
     files.append(("e.yaml", json.dumps(c, ensure_ascii=False)))
     tag = {"prop": "C03", "ent": "e", "class": klass,
            "attrs": [{"name": k if isinstance(k, str) else "", "oid": [] if isinstance(k, str) else k, "v": [ord(ch) for ch in v]} for k, v in attrs],
-           "serial": serial_bytes(serial) if serial else [],
+           "serial": serial_bytes(serial) if serial is not None else [],
            "iuid": {"present": bool(iuid), "bytes": list(iuid or b"")}, "suid": {"present": bool(suid), "bytes": list(suid or b"")}}
     return case(cid, [(p, t if isinstance(t, str) else json.dumps(t)) for p, t in files], tag=tag)
 
@@ -80,7 +80,7 @@ def cases(ctx):
         add([("CN", "Sub"), ("O", "Org"), ("C", "DE")], profile=prof, klass="order/" + prof)
         add([("C", "DE"), ("O", "Org"), ("OU", "Unit"), ("CN", "Leaf")], profile=prof, klass="order/" + prof)
     # serials and unique ids
-    for s in [1, 127, 128, 255, 256, 2 ** 31, 2 ** 63 - 1] + [r.randrange(1, 2 ** 63) for _ in range(6)]:
+    for s in [0, 1, 127, 128, 255, 256, 2 ** 31, 2 ** 63 - 1] + [r.randrange(1, 2 ** 63) for _ in range(6)]:
         add([("CN", "serial")], serial=s, klass="serial")
     for ln in [1, 2, 127, 128, 300]:
         b = bytes(r.randrange(256) for _ in range(ln))
